@@ -347,7 +347,16 @@ func genC14(r *rand.Rand, tier string, env *Env) []Case {
 		args := [][]byte{[]byte(content)}
 		steps := 1 + r.Intn(3)
 		for s := 0; s < steps; s++ {
-			args = append(args, []byte(genVersion(r)), []byte(fmt.Sprint(2000+r.Intn(200))))
+			v, y := genVersion(r), fmt.Sprint(2000+r.Intn(200))
+			if s > 0 && chance(r, 0.3) {
+				// the same version again with another year, or another version in the same year
+				if chance(r, 0.5) {
+					v = string(args[len(args)-2])
+				} else {
+					y = string(args[len(args)-1])
+				}
+			}
+			args = append(args, []byte(v), []byte(y))
 		}
 		kind := "file-seq"
 		if markers == 0 {
